@@ -18,7 +18,7 @@
 (*   violation anything else                                                 *)
 (*   drift     (in addition to ok) observation # model-with-Devs             *)
 (***************************************************************************)
-EXTENDS JV, Json, SequencesExt
+EXTENDS IntSize, Json, SequencesExt
 
 CONSTANTS ObsFile, Devs, Judge   \* Judge: which aspect is compared ("verdict", ...)
 
@@ -54,16 +54,49 @@ Report(n, e, i, c) ==
                              devs |-> SetToSeq(Explains(e, i)),
                              ref |-> RefV(e, i), obs |-> ObsV(e.res[i]), impl |-> ImplV(e, i, Devs)]))
 
+(* ---- C15: the Go type chosen under --min-sized-ints (read from the compiled program by reflection) ---- *)
+IntTypes == {"int8", "int16", "int32", "int64", "uint8", "uint16", "uint32", "uint64"}
+TyWidth(ty) == CASE ty \in {"int8", "uint8"} -> 8 [] ty \in {"int16", "uint16"} -> 16
+               [] ty \in {"int32", "uint32"} -> 32 [] OTHER -> 64
+StripPtr(g) == IF Len(g) > 0 /\ SubSeq(g, 1, 1) = "*" THEN SubSeq(g, 2, Len(g)) ELSE g
+XLeaf(e) == IF e.unit.defs = <<>> THEN e.unit.schema.properties[1].s ELSE e.unit.defs[1].s
+\* the admitted interval by the reference semantics (inclusive ends; Nil = unbounded)
+RefIval(s) ==
+  LET n == Normalize(PMin(s), PMax(s), PEx(s, "exclusiveMinimum"), PEx(s, "exclusiveMaximum"), {})
+  IN [lo |-> IF n.minEx /\ n.min.on THEN Ptr(Plus(n.min.v, 1)) ELSE n.min,
+      hi |-> IF n.maxEx /\ n.max.on THEN Ptr(Plus(n.max.v, -1)) ELSE n.max]
+Holds(ty, iv) ==
+  /\ IF iv.lo.on THEN NumLE(TyMin(ty), iv.lo.v) ELSE ty = "int64"
+  /\ IF iv.hi.on THEN NumLE(iv.hi.v, TyMax(ty)) ELSE ty \in {"int64", "uint64"}
+SizedTypeClass(e) ==
+  LET s == XLeaf(e)  iv == RefIval(s)  g == StripPtr(e.gotype)
+      cands == {ty \in IntTypes : Holds(ty, iv)}
+      pred(D) == MinIntType(PMin(s), PMax(s), PEx(s, "exclusiveMinimum"), PEx(s, "exclusiveMaximum"), D).ty
+  IN IF iv.lo.on /\ iv.hi.on /\ NumLT(iv.hi.v, iv.lo.v) THEN "un"        \* nothing is admitted
+     ELSE IF cands = {} THEN "un"                                          \* beyond 64 bits
+     ELSE IF g \in cands /\ \A c \in cands : TyWidth(g) <= TyWidth(c) THEN "ok"
+     ELSE IF g = pred(Devs) /\ pred({}) # g THEN "known"
+     ELSE "violation"
+IsSized(e) == "opts" \in DOMAIN e.unit /\ "minSizedInts" \in DOMAIN e.unit.opts /\ e.unit.opts.minSizedInts
+              /\ e.unit.prop = "C15"
+TypeReport(n, e, c) ==
+  PrintT("REPORT " \o ToJson([l |-> n, i |-> 0, class |-> c, devs |-> <<"Float64Bounds">>,
+                             ref |-> "narrowest type holding the admitted interval", obs |-> e.gotype, impl |-> "-"]))
+
 Count(cls, c) == Cardinality({i \in DOMAIN cls : cls[i] = c})
 
 Step(n, e, t) ==
-  LET cls == [i \in DOMAIN e.res |-> Class(e, i)] IN
-  IF \A i \in DOMAIN cls : cls[i] \in {"ok", "un"} \/ Report(n, e, i, cls[i])
+  LET cls0 == [i \in DOMAIN e.res |-> Class(e, i)]
+      tc   == IF IsSized(e) THEN SizedTypeClass(e) ELSE "none"
+      cls  == IF tc = "none" THEN cls0 ELSE cls0 \o <<tc>>
+  IN
+  IF /\ \A i \in DOMAIN cls0 : cls0[i] \in {"ok", "un"} \/ Report(n, e, i, cls0[i])
+     /\ tc \in {"none", "ok", "un"} \/ TypeReport(n, e, tc)
   THEN [ok |-> t.ok + Count(cls, "ok") + Count(cls, "drift"), un |-> t.un + Count(cls, "un"),
         known |-> t.known + Count(cls, "known"), viol |-> t.viol + Count(cls, "violation"),
         drift |-> t.drift + Count(cls, "drift"),
-        acc |-> t.acc + Cardinality({i \in DOMAIN cls : RefV(e, i) = Acc}),
-        rej |-> t.rej + Cardinality({i \in DOMAIN cls : RefV(e, i) = Rej})]
+        acc |-> t.acc + Cardinality({i \in DOMAIN cls0 : RefV(e, i) = Acc}),
+        rej |-> t.rej + Cardinality({i \in DOMAIN cls0 : RefV(e, i) = Rej})]
   ELSE t
 
 Init == l = 0 /\ tally = [ok |-> 0, un |-> 0, known |-> 0, viol |-> 0, drift |-> 0, acc |-> 0, rej |-> 0]
